@@ -7,9 +7,10 @@ model of Model/Cell.lean (`H` = SHA-256, abstract).  `Spec.BocEncode.encodeWith 
 encoder with all freedoms (Spec/BocEncode.lean).  `none` = the library raises.
 -/
 import TonVerif.Proofs.BocParse
+import TonVerif.Properties.C01
 
 namespace TonVerif.Properties.C05
-open TonVerif TonVerif.Model TonVerif.Model.BocParse TonVerif.Proofs.BocParse
+open TonVerif TonVerif.Model TonVerif.Model.BocParse TonVerif.Proofs.BocParse TonVerif.Spec.BocEncode
 
 /-- dangling, backward and self references: if the header of `data` is accepted and the cell records are read, and
 some record at position `k` carries a reference `r` with `r ≤ k` (backward or self) or `r ≥ cells` (dangling), then
@@ -74,5 +75,100 @@ theorem c05_crc_byte_error {R : Type} (mk : Bits → List R → Int → Option R
     deserialize mk (d.set j (d[j] ^^^ e)) = none := by
   have := header_crc_byte_error d hwf h hh hc j hj e he0 he (fun h => absurd h hj4)
   simp [deserialize, this]
+
+/-! ## statements about the encodings of the spec encoder -/
+
+/-- ACCEPTS: for every admissible choice of freedoms `fr` (any of the three constructors, any size ≤ 4 and off_bytes ≤ 8
+that fit, index / CRC / cache bits, per-cell stored hashes and cache flags), every forward listing `cells` and root
+positions `roots` (`Valid`), if the listing denotes the trees `trees` and each of them passes the cell constructor
+(local hypothesis about the cells at hand; `H` arbitrary, no injectivity needed), then `Cell.from_boc` on the encoding
+returns exactly the denoted roots, in order, each with the constructor's cached info. -/
+theorem c05_accepts (H : Bytes → Bytes) (fr : Freedoms) (cells : List SCell) (roots : List Nat)
+    (hv : Valid fr cells roots) (trees : List Cell) (hden : denote cells = some trees)
+    (hcon : ∀ t ∈ trees, (Cell.info H t).isSome) :
+    ∃ out, fromBoc H (encodeWith fr cells roots) = some out ∧
+      roots.mapM (fun r => trees[r]?) = some (out.map (·.1)) ∧ ∀ p ∈ out, Cell.info H p.1 = some p.2 :=
+  encode_accepts H fr cells roots hv trees hden hcon
+
+/-- every proper prefix and every proper extension of a valid encoding is rejected. -/
+theorem c05_trunc_ext_encoding (H : Bytes → Bytes) (fr : Freedoms) (cells : List SCell) (roots : List Nat)
+    (hv : Valid fr cells roots) (trees : List Cell) (hden : denote cells = some trees)
+    (hcon : ∀ t ∈ trees, (Cell.info H t).isSome) :
+    (∀ p t, encodeWith fr cells roots = p ++ t → t ≠ [] → fromBoc H p = none) ∧
+    (∀ t, t ≠ [] → fromBoc H (encodeWith fr cells roots ++ t) = none) := by
+  obtain ⟨out, h, -⟩ := c05_accepts H fr cells roots hv trees hden hcon
+  have hne : deserialize (mkCell H) (encodeWith fr cells roots) ≠ none := by
+    unfold fromBoc at h; rw [h]; simp
+  exact ⟨fun p t e ht => c05_truncation (mkCell H) _ hne p t e ht, fun t ht => c05_extension (mkCell H) _ hne t ht⟩
+
+/-- with a CRC (generic constructor with has_crc32c, or acc3a728), flipping ANY single bit of a valid encoding makes
+the parser raise — for every size of the bag. -/
+theorem c05_crc_single_bit (H : Bytes → Bytes) (fr : Freedoms) (cells : List SCell) (roots : List Nat)
+    (hv : Valid fr cells roots) (hcrc : fr.withCrc = true) (k : Nat) (hk : k < 8 * (encodeWith fr cells roots).length) :
+    fromBoc H (flipBit (encodeWith fr cells roots) k) = none := by
+  obtain ⟨h, h1, -, -, -, -, h6, h7⟩ := encode_header fr cells roots hv
+  exact c05_crc_single_bit_accepted (mkCell H) _ h7 h h1 (by rw [h6, hcrc]) k hk
+
+/-! ## non-vacuity -/
+
+def exCells : List SCell := [
+  { kind := -1, bits := [true, false, true], refs := [1, 1], mask := 0, hashes := [List.replicate 32 7], depths := [1] },
+  { kind := -1, bits := [], refs := [], mask := 0, hashes := [List.replicate 32 9], depths := [0] } ]
+
+def exFr : Freedoms :=
+  { magic := .generic, size := 2, offBytes := 3, hasIdx := true, hasCrc := true, hasCacheBits := true,
+    storeHashes := [true, false], cacheFlags := [false, true] }
+
+def exTrees : List Cell := [.mk (-1) [true, false, true] [.mk (-1) [] [], .mk (-1) [] []], .mk (-1) [] []]
+
+theorem exValid : Valid exFr exCells [0, 1] := by
+  refine ⟨?_, by decide, by decide, by decide, by decide, ?_, ?_⟩
+  · intro pos h
+    have : pos = 0 ∨ pos = 1 := by simp [exCells] at h; omega
+    rcases this with rfl | rfl
+    · simp [exCells, CellOK, Spec.popcount, Bytes.WF]
+    · simp [exCells, CellOK, Spec.popcount, Bytes.WF]
+  · simp [exFr, exCells, Freedoms.withCache, Freedoms.withIdx, records, encodeCell, hashBlock, Spec.dataBytes, Spec.padBits,
+      bitsToBytes, natToBE, Spec.d2]
+  · simp [exFr, exCells]
+
+theorem exDenote : denote exCells = some exTrees := by
+  simp [denote, denoteFrom, exCells, exTrees]
+
+open TonVerif.Proofs.OrdCell in
+theorem exConstructible (H : Bytes → Bytes) : ∀ t ∈ exTrees, (Cell.info H t).isSome := by
+  intro t ht
+  simp only [exTrees, List.mem_cons, List.not_mem_nil, or_false] at ht
+  have w1 : OrdWF (.mk (-1) [true, false, true] [.mk (-1) [] [], .mk (-1) [] []]) ∧
+      ordDepth (.mk (-1) [true, false, true] [.mk (-1) [] [], .mk (-1) [] []]) ≤ 1023 := by
+    simp [OrdWF, OrdWFs, ordDepth, ordDepthMax]
+  have w2 : OrdWF (.mk (-1) [] []) ∧ ordDepth (.mk (-1) [] []) ≤ 1023 := by
+    simp [OrdWF, OrdWFs, ordDepth]
+  rcases ht with rfl | rfl
+  · obtain ⟨i, hi, _⟩ := TonVerif.Properties.C01.c01_hash_depth H _ w1.1 w1.2
+    simp [hi]
+  · obtain ⟨i, hi, _⟩ := TonVerif.Properties.C01.c01_hash_depth H _ w2.1 w2.2
+    simp [hi]
+
+/-- non-vacuity of `c05_bad_refs`: a one-cell bag whose only cell refers to itself has an acceptable header and a
+readable record with the self reference `0 ≤ 0`. -/
+def selfRefBag : Bytes := [0xb5, 0xee, 0x9c, 0x72, 1, 1, 1, 1, 0, 3, 0, 1, 0, 0]
+
+example : ∃ h recs c, deserializeBocHeader selfRefBag = some h ∧
+    readCells h.cellsNum h.cellsData h.fl.sizeBytes = some recs ∧ recs[0]? = some c ∧ 0 ∈ c.refs ∧ (0 ≤ 0 ∨ h.cellsNum ≤ 0) := by
+  refine ⟨{ fl := { generic := true, hasIdx := false, hasCrc := false, hasCacheBits := false, flags := 0, sizeBytes := 1 },
+             offsetBytes := 1, cellsNum := 1, rootsNum := 1, absentNum := 0, totCellsSize := 3, rootList := [0], index := [],
+             cellsData := [1, 0, 0] }, [{ bits := [], refs := [0], type := -1 }], { bits := [], refs := [0], type := -1 },
+    by decide +kernel, by decide +kernel, rfl, by simp, Or.inl (Nat.le_refl 0)⟩
+
+/-- the hypotheses of `c05_accepts`, `c05_trunc_ext_encoding` and `c05_crc_single_bit` are met by a concrete non-trivial
+bag (two cells, a doubled reference, two roots, generic constructor with index, cache bits, CRC, one stored-hash record). -/
+example (H : Bytes → Bytes) : ∃ out, fromBoc H (encodeWith exFr exCells [0, 1]) = some out ∧
+    [0, 1].mapM (fun r => exTrees[r]?) = some (out.map (·.1)) ∧ ∀ p ∈ out, Cell.info H p.1 = some p.2 :=
+  c05_accepts H exFr exCells [0, 1] exValid exTrees exDenote (exConstructible H)
+
+example (H : Bytes → Bytes) (k : Nat) (hk : k < 8 * (encodeWith exFr exCells [0, 1]).length) :
+    fromBoc H (flipBit (encodeWith exFr exCells [0, 1]) k) = none :=
+  c05_crc_single_bit H exFr exCells [0, 1] exValid rfl k hk
 
 end TonVerif.Properties.C05
